@@ -6,7 +6,6 @@ import (
 
 	"github.com/buildbarn/bb-storage/pkg/blobstore/sharding"
 
-	"verif/lib/gen"
 	"verif/lib/run"
 )
 
@@ -68,8 +67,8 @@ func allPerms(n int) [][]int {
 }
 
 func selectorEngine(w *run.Worker) {
-	// quick: 4000 maps; thorough: 300000 maps (x ~300 hashes each).
-	w.Cases("selector", w.N(4000, 300000), func(c *run.Case) {
+	// quick: 4000 maps; thorough: 200000 maps (x ~300 hashes each).
+	w.Cases("selector", w.N(4000, 200000), func(c *run.Case) {
 		r := caseRng(w, c)
 		// Shape of the case.
 		tieCase := r.Chance(1, 3)
@@ -321,5 +320,3 @@ func selectorEngine(w *run.Worker) {
 		}
 	})
 }
-
-var _ = gen.New
